@@ -103,7 +103,21 @@ impl psi::WholeCompactSyntaxPayloadParser for SecCompactRec {
 
 fn op_sec(kind: &str, pkts: &[Vec<u8>]) -> String {
     let mut ctx = SecCtx { out: vec![], pkt_idx: 0, pkt_addr: 0 };
-    if kind == "s" {
+    if kind == "t" {
+        // the chain the library builds for PAT / PMT PIDs: version de-duplication, reassembly,
+        // CRC gate; what reaches the table processor is recorded with its address (a section that
+        // lies wholly in the packet that starts it must arrive as a slice of that packet)
+        let mut c = psi::SectionPacketConsumer::new(psi::SectionSyntaxSectionProcessor::new(
+            psi::DedupSectionSyntaxPayloadParser::new(psi::BufferSectionSyntaxParser::new(
+                psi::CrcCheckWholeSectionSyntaxPayloadParser::new(SecSyntaxRec),
+            )),
+        ));
+        for (i, p) in pkts.iter().enumerate() {
+            ctx.pkt_idx = i;
+            ctx.pkt_addr = p.as_ptr() as usize;
+            c.consume(&mut ctx, &Packet::new(p));
+        }
+    } else if kind == "s" {
         let mut c = psi::SectionPacketConsumer::new(psi::SectionSyntaxSectionProcessor::new(
             psi::BufferSectionSyntaxParser::new(SecSyntaxRec),
         ));
